@@ -634,3 +634,106 @@ def rt_c03(tier="quick", first_only=False, count=None):
     if count is not None:
         count.append(n)
     return fails
+
+
+# --------------------------------------------------------------------------------------
+# C08 / C13: declared shapes of the combinators vs what their methods accept and return (real objects)
+def _ident(shape, cond_shape=None):
+    import flowjax.bijections as B
+
+    if cond_shape is None:
+        return B.Affine(jnp.full(shape, 0.5), jnp.full(shape, 2.0))
+    return B.AdditiveCondition(lambda c: jnp.sum(c), tuple(shape), tuple(cond_shape))
+
+
+def _accepts(b, cond_shape_expected=None):
+    """call all four methods with inputs of the DECLARED shapes; returns problem string or None"""
+    x = jnp.arange(float(np.prod(b.shape, dtype=int))).reshape(b.shape) / 7.0 + 0.1
+    cond = None if b.cond_shape is None else jnp.ones(b.cond_shape)
+    try:
+        y = b.transform(x, cond)
+        y2, ld = b.transform_and_log_det(x, cond)
+        xb = b.inverse(y, cond)
+        xb2, ldi = b.inverse_and_log_det(y, cond)
+    except Exception as ex:  # noqa: BLE001
+        return f"the methods reject inputs of the declared shape {b.shape} / cond_shape {b.cond_shape}: {type(ex).__name__}: {str(ex)[:160]}"
+    if y.shape != tuple(b.shape) or xb.shape != tuple(b.shape) or jnp.shape(ld) != () or jnp.shape(ldi) != ():
+        return f"declared shape {b.shape} but transform returned {y.shape}, inverse {xb.shape}, log-dets {jnp.shape(ld)}/{jnp.shape(ldi)}"
+    if not bool(jnp.allclose(xb, x, atol=1e-9)):
+        return "inverse(transform(x)) != x"
+    return None
+
+
+def rt_shapes_case(cls, **kw):
+    import flowjax.bijections as B
+
+    try:
+        if cls == "Stack":
+            s, axis, k = tuple(kw["s0"]), kw["axis"], kw.get("k", 2)
+            b = B.Stack([_ident(s) for _ in range(k)], axis=axis)
+            want = jnp.stack([jnp.zeros(s)] * k, axis).shape
+            if tuple(b.shape) != tuple(want):
+                return f"Stack of {k} bijections of shape {s} along axis {axis} declares shape {tuple(b.shape)}; jnp.stack gives {tuple(want)}"
+            return _accepts(b)
+        if cls == "Concatenate":
+            s0, s1, axis = tuple(kw["s0"]), tuple(kw["s1"]), kw["axis"]
+            b = B.Concatenate([_ident(s0), _ident(s1)], axis=axis)
+            want = jnp.concatenate([jnp.zeros(s0), jnp.zeros(s1)], axis).shape
+            if tuple(b.shape) != tuple(want):
+                return f"Concatenate of shapes {s0},{s1} along axis {axis} declares {tuple(b.shape)}; jnp.concatenate gives {tuple(want)}"
+            return _accepts(b)
+        if cls == "Vmap":
+            s, cs, ax, size = tuple(kw["inner_shape"]), tuple(kw["inner_cond_shape"]), kw["in_axes_condition"], kw["axis_size"]
+            b = B.Vmap(_ident(s, cs), axis_size=size, in_axes_condition=ax)
+            r = len(cs) + 1
+            a = ax % r
+            want = cs[:a] + (size,) + cs[a:]
+            if tuple(b.cond_shape) != tuple(want):
+                return f"Vmap(axis_size={size}, in_axes_condition={ax}) of a child with cond_shape {cs} declares cond_shape {tuple(b.cond_shape)}; mapping axis {ax} of the batched condition means {want}"
+            if tuple(b.shape) != (size,) + s:
+                return f"Vmap declares shape {tuple(b.shape)}, expected {(size,) + s}"
+            return _accepts(b)
+        if cls == "Reshape":
+            inner, target, icond, tcond = tuple(kw["inner"]), kw["target"], kw.get("icond"), kw.get("tcond")
+            b = B.Reshape(_ident(inner, icond), None if target is None else tuple(target), None if tcond is None else tuple(tcond))
+            want = inner if target is None else tuple(target)
+            wantc = icond if tcond is None else tuple(tcond)
+            if tuple(b.shape) != tuple(want) or (b.cond_shape is None) != (wantc is None) or (wantc is not None and tuple(b.cond_shape) != tuple(wantc)):
+                return f"Reshape({inner} -> {target}, cond {icond} -> {tcond}) declares shape {b.shape} / cond_shape {b.cond_shape}; requested {want} / {wantc}"
+            return _accepts(b)
+    except Exception as ex:  # noqa: BLE001
+        return f"constructor raised {type(ex).__name__}: {str(ex)[:200]} for a valid configuration {cls} {kw}"
+    return None
+
+
+def rt_shapes_grid(first_only=False, count=None, only=None):
+    import itertools as _it
+
+    fails, n = [], 0
+    shapes = [(), (2,), (2, 3), (2, 3, 4)]
+    cases = []
+    for s in shapes:
+        for axis in range(-(len(s) + 1), len(s) + 1):
+            cases.append(("Stack", dict(s0=s, axis=axis)))
+        for axis in range(-len(s), len(s)):
+            s1 = list(s)
+            s1[axis] = s1[axis] + 1
+            cases.append(("Concatenate", dict(s0=s, s1=tuple(s1), axis=axis)))
+        for cs in shapes[:3]:
+            for ax in range(-(len(cs) + 1), len(cs) + 1):
+                cases.append(("Vmap", dict(inner_shape=s[:2], inner_cond_shape=cs, in_axes_condition=ax, axis_size=5)))
+    for inner, target in (((1,), ()), ((4,), (2, 2)), ((2, 3), (6,)), ((2, 3), None), ((1, 1), ())):
+        for icond, tcond in ((None, None), ((1,), ()), ((4,), (2, 2)), ((3,), None)):
+            cases.append(("Reshape", dict(inner=inner, target=target, icond=icond, tcond=tcond)))
+    for cls, kw in cases:
+        if only and cls != only:
+            continue
+        n += 1
+        r = rt_shapes_case(cls, **kw)
+        if r is not None:
+            fails.append(dict(what=r, case=dict(cls=cls, **{k: (list(v) if isinstance(v, tuple) else v) for k, v in kw.items()})))
+            if first_only:
+                return fails
+    if count is not None:
+        count.append(n)
+    return fails
